@@ -4,15 +4,35 @@ TV = "translation_validation"
 CORR = ("Differential correspondence of the executable Lean model with the real library on generated programs, "
         "plus the property evaluated on the real library's observations against the model's reference semantics. ")
 
+PR = "proof"
+
 CHECKS = {
     "C01": (TV, "Lean model + correspondence (proofs in progress)", CORR, "", "DESIGN.md 5/C01"),
+    "C02": (TV, "Lean model + correspondence (proofs in progress)", CORR, "", "DESIGN.md 5/C02"),
+    "C03": (TV, "Lean model + correspondence (proofs in progress)", CORR, "", "DESIGN.md 5/C03"),
     "C04": (TV, "Lean model + correspondence (proofs in progress)", CORR, "", "DESIGN.md 5/C04"),
-    "C05": (TV, "Lean model + correspondence (proofs in progress)", CORR, "", "DESIGN.md 5/C05"),
-    "C06": (TV, "Lean model + correspondence (proofs in progress)", CORR, "", "DESIGN.md 5/C06"),
-    "C13": (TV, "Lean model + correspondence (proofs in progress)", CORR, "", "DESIGN.md 5/C13"),
+    "C05": (PR, "Lean 4 theorems (slice/sort/selection/projection merge, simplify, _finish_apply) + correspondence",
+            "Machine-checked: Slice.then total and exact for all bounds, Sort.then = sequential stable sorts, "
+            "simplify sound and total for every pair, _finish_apply preserves the reference semantics through any "
+            "depth of re-simplification. " + CORR, "", "DESIGN.md 5/C05"),
+    "C06": (PR, "Lean 4 theorem by induction over trees (metadata_truthful) + correspondence",
+            "Machine-checked: columns and [min_rows,max_rows] are truthful for every well-formed tree over truthful "
+            "leaves (all operations incl. join/chain), hence join-identity/trivial flags and the short-cuts keyed on "
+            "them. " + CORR, "", "DESIGN.md 5/C06"),
+    "C07": (TV, "Lean model + correspondence (proofs in progress)", CORR, "", "DESIGN.md 5/C07"),
+    "C08": (TV, "Lean model + correspondence (proofs in progress)", CORR, "", "DESIGN.md 5/C08"),
+    "C10": (TV, "Lean model + correspondence (proofs in progress)", CORR, "", "DESIGN.md 5/C10"),
+    "C11": (TV, "Lean model + correspondence (proofs in progress)", CORR, "", "DESIGN.md 5/C11"),
+    "C13": (PR, "Lean 4 theorems by mutual structural induction over the nested predicate type + correspondence",
+            "Machine-checked for all predicate/expression trees and rows: as_trivial sound (spec and callable), "
+            "flatten_logical_and sound, Selection normalisation equivalent, required columns sufficient. " + CORR,
+            "", "DESIGN.md 5/C13"),
+    "C14": (TV, "Lean model + correspondence (proofs in progress)", CORR, "", "DESIGN.md 5/C14"),
+    "C15": (TV, "Lean model + correspondence (proofs in progress)", CORR, "", "DESIGN.md 5/C15"),
+    "C16": (TV, "Lean model + correspondence (proofs in progress)", CORR, "", "DESIGN.md 5/C16"),
     "C18": (TV, "Lean model + correspondence (proofs in progress)", CORR, "", "DESIGN.md 5/C18"),
+    "C20": (TV, "Lean model + correspondence (proofs in progress)", CORR, "", "DESIGN.md 5/C20"),
 }
 
 _PENDING = "check not built yet in this revision (planned: see DESIGN.md section 5)"
-NOT_APPLICABLE = {p: _PENDING for p in
-                  ["C02", "C03", "C07", "C08", "C09", "C10", "C11", "C12", "C14", "C15", "C16", "C17", "C19", "C20"]}
+NOT_APPLICABLE = {p: _PENDING for p in ["C09", "C12", "C17", "C19"]}
